@@ -8,6 +8,7 @@ import Driver.Ops.Denote
 import Driver.Ops.Des
 import Driver.Ops.Finish
 import Driver.Ops.Mfe
+import Driver.Ops.GcFloat
 import Driver.Ops.Ssm
 import Driver.Ops.Subst
 import Driver.Ops.ParseComp
@@ -29,6 +30,7 @@ def handlers : List (String → Json → Option Json) := [
   DesOps.handle?,
   FinishOps.handle?,
   MfeOps.handle?,
+  GcFloatOps.handle?,
   Ssm.handle?,
   Subst.handle?,
   ParseCompOps.handle?,
